@@ -63,6 +63,9 @@ Proof.
     rewrite getN_cons. replace (i - s =? 0) with false by lia. replace (i - s - 1) with (i - (s + 1)) by lia. assumption.
 Qed.
 
+Lemma lenN_rev_N (l : list N) : lenN (rev l) = lenN l.
+Proof. unfold lenN. rewrite rev_length. reflexivity. Qed.
+
 (** * index_of, contains, foreach *)
 Lemma index_of_loop_spec d l e : dq_wf d -> repr d l ->
   forall k i, i + N.of_nat k = dq_size d -> index_of_loop d e k i = Ok (find_index (skipnN i l) e i).
@@ -134,4 +137,455 @@ Proof.
   destruct (find_index l e 0) as [i|] eqn:Ef; cbn [bind]; [|reflexivity].
   apply find_index_spec in Ef. destruct Ef as (_ & Hg & _). rewrite N.sub_0_r in Hg.
   pose proof (remove_at_refines d l i Hwf Hr) as H. rewrite Hg in H. exact H.
+Qed.
+
+(** * reverse *)
+(** the content after [i] swaps: the outer [i] positions on both sides already hold the mirror image *)
+Definition stage_get (l : list N) (n i j : N) : option N :=
+  if (j <? i) || (n - i <=? j) then getN l (n - 1 - j) else getN l j.
+
+Lemma reverse_loop_spec f c n (l : list N) : pow2 c -> f < c -> n <= c -> lenN l = n ->
+  forall k i (b : list slot), i <= n / 2 -> n / 2 - i <= N.of_nat k -> lenN b = c ->
+  (forall j, j < n -> getN b (idx f j c) = Some (stage_get l n i j)) ->
+  exists b', reverse_loop k f (wsub c 1) n b i (n - 1 - i) = Ok b' /\ lenN b' = c /\
+             forall j, j < n -> getN b' (idx f j c) = Some (getN (rev l) j).
+Proof.
+  intros Hp Hf Hn Hl. pose proof (pow2_bounds c Hp) as Hc.
+  induction k as [|k IH]; intros i b Hi Hk Hlb Hinv; cbn [reverse_loop]; unfold g_deque_reverse_loop.
+  - replace (i <? n / 2) with false by lia. exists b. split; [reflexivity|]. split; [assumption|].
+    intros j Hj. rewrite Hinv by assumption. rewrite getN_rev by lia. rewrite Hl. unfold stage_get.
+    destruct ((j <? i) || (n - i <=? j)) eqn:E; [reflexivity|]. do 2 f_equal. lia.
+  - destruct (i <? n / 2) eqn:Eg.
+    + rewrite !land_add by (try assumption; lia).
+      assert (Hfi : idx f i c < c) by (apply idx_lt; lia).
+      assert (Hfj : idx f (n - 1 - i) c < c) by (apply idx_lt; lia).
+      run_rd tmp. run_rd vl. run_wr b1. run_wr b2.
+      rewrite wadd_small by (unfold W; lia). rewrite (wsub_small (n - 1 - i) 1) by (unfold W; lia).
+      replace (n - 1 - i - 1) with (n - 1 - (i + 1)) by lia.
+      apply IH; [lia|lia|lia|].
+      intros j Hj. rewrite (getN_updN _ _ _ _ _ Hu0), (getN_updN _ _ _ _ _ Hu).
+      assert (Hinj : forall j1 j2, j1 < n -> j2 < n -> idx f j1 c = idx f j2 c -> j1 = j2).
+      { intros j1 j2 H1 H2. unfold idx. split_ifs; lia. }
+      destruct (idx f j c =? idx f (n - 1 - i) c) eqn:E1.
+      * assert (j = n - 1 - i) by (apply Hinj; lia). subst j.
+        rewrite <- He. rewrite Hinv by lia. f_equal. unfold stage_get. split_ifs; f_equal; lia.
+      * destruct (idx f j c =? idx f i c) eqn:E2.
+        -- assert (j = i) by (apply Hinj; lia). subst j.
+           rewrite <- He0. rewrite Hinv by lia. f_equal. unfold stage_get. split_ifs; f_equal; lia.
+        -- rewrite Hinv by lia. f_equal. unfold stage_get.
+           assert (j <> i) by (intros ->; lia). assert (j <> n - 1 - i) by (intros ->; lia).
+           split_ifs; f_equal; lia.
+    + exists b. split; [reflexivity|]. split; [assumption|].
+      intros j Hj. rewrite Hinv by assumption. rewrite getN_rev by lia. rewrite Hl. unfold stage_get.
+      destruct ((j <? i) || (n - i <=? j)) eqn:E; [reflexivity|]. do 2 f_equal. lia.
+Qed.
+
+Lemma reverse_refines d l : dq_wf d -> repr d l ->
+  exists d', dq_reverse d = Ok d' /\ dq_wf d' /\ repr d' (rev l) /\ frame d d'.
+Proof.
+  intros Hwf [Hl Hr]. pose proof (wf_cap d Hwf) as Hc. pose proof Hwf as [Hp Hlen Hf Hs Hlast].
+  unfold dq_reverse, mask.
+  destruct (dq_size d =? 0) eqn:E0.
+  - (* empty: j = size - 1 wraps, the loop does not run *)
+    assert (Hz : dq_size d = 0) by lia. rewrite Hz. cbn [N.to_nat reverse_loop]. unfold g_deque_reverse_loop.
+    change (0 <? 0 / 2) with false. cbn [bind]. eexists. split; [reflexivity|]. split; [|split; [|apply frame_set]].
+    + constructor; fields; try assumption; try lia. rewrite Hlast, Hz. reflexivity.
+    + split; fields; [|intros j Hj; lia]. rewrite lenN_rev_N. lia.
+  - rewrite (wsub_small (dq_size d) 1) by (unfold W; lia).
+    destruct (reverse_loop_spec (dq_first d) (dq_cap d) (dq_size d) l Hp Hf Hs Hl (N.to_nat (dq_size d)) 0 (dq_slots d))
+      as (b' & Hb & Hlb & Hg); [lia|lia|assumption| |].
+    { intros j Hj. rewrite Hr by assumption. f_equal. unfold stage_get.
+      replace ((j <? 0) || (dq_size d - 0 <=? j)) with false by lia. reflexivity. }
+    rewrite N.sub_0_r in Hb. rewrite Hb. cbn [bind]. eexists. split; [reflexivity|]. split; [|split; [|apply frame_set]].
+    + constructor; fields; try assumption; lia.
+    + split; fields; [rewrite lenN_rev_N; assumption|]. exact Hg.
+Qed.
+
+(** * filter_mut *)
+Lemma filter_mut_loop_spec pred : forall k d l i, dq_wf d -> repr d l -> dq_size d - i <= N.of_nat k ->
+  exists d', filter_mut_loop pred (mask d) k d i = Ok d' /\ dq_wf d' /\
+             repr d' (firstnN i l ++ filter pred (skipnN i l)) /\ frame d d'.
+Proof.
+  induction k as [|k IH]; intros d l i Hwf Hrep Hk; pose proof Hrep as [Hl Hr];
+    pose proof (wf_cap d Hwf) as Hc; pose proof (wf_size d Hwf) as Hsz; cbn [filter_mut_loop].
+  - replace (i <? dq_size d) with false by lia. exists d. split; [reflexivity|]. split; [assumption|].
+    split; [|apply frame_refl]. rewrite skipnN_all, firstnN_all, app_nil_r by lia. assumption.
+  - destruct (i <? dq_size d) eqn:Eg.
+    + fold (phys d i). rewrite wf_phys by (try assumption; lia).
+      destruct (getN_lt l i) as [v Hv]; [lia|].
+      rewrite (rdv_ok _ _ v) by (rewrite Hr by lia; rewrite Hv; reflexivity). cbn [bind].
+      rewrite (skipnN_cons l i v Hv). cbn [filter]. destruct (pred v).
+      * rewrite wadd_small by (unfold W; lia).
+        destruct (IH d l (i + 1) Hwf Hrep) as (d' & Hd & Hw' & Hr' & Hf'); [lia|].
+        exists d'. split; [assumption|]. split; [assumption|]. split; [|assumption].
+        rewrite (firstnN_succ l i v Hv), <- app_assoc in Hr'. exact Hr'.
+      * pose proof (remove_at_refines d l i Hwf Hrep) as HR. rewrite Hv in HR.
+        destruct HR as (d1 & Hrm & Hw1 & Hr1 & Hf1). rewrite Hrm. cbn [bind].
+        assert (Hm : mask d1 = mask d) by (unfold mask; destruct Hf1 as [-> _]; reflexivity).
+        destruct Hr1 as [Hl1 Hr1'].
+        destruct (IH d1 (del l i) i Hw1 (conj Hl1 Hr1')) as (d' & Hd & Hw' & Hr' & Hf'); [rewrite lenN_del in Hl1 by lia; lia|].
+        rewrite Hm in Hd. exists d'. split; [assumption|]. split; [assumption|]. split; [|eapply frame_trans; eassumption].
+        rewrite firstnN_del, skipnN_del in Hr' by lia. exact Hr'.
+    + exists d. split; [reflexivity|]. split; [assumption|].
+      split; [|apply frame_refl]. rewrite skipnN_all, firstnN_all, app_nil_r by lia. assumption.
+Qed.
+
+Lemma filter_mut_refines d l pred : dq_wf d -> repr d l ->
+  match l with
+  | [] => dq_filter_mut d pred = Ok (CC_ERR_OUT_OF_RANGE, d)
+  | _ => exists d', dq_filter_mut d pred = Ok (CC_OK, d') /\ dq_wf d' /\ repr d' (filter pred l) /\ frame d d'
+  end.
+Proof.
+  intros Hwf Hrep. pose proof Hrep as [Hl Hr]. unfold dq_filter_mut.
+  destruct l as [|x t] eqn:El.
+  - replace (dq_size d =? 0) with true by (cbn in Hl; lia). reflexivity.
+  - rewrite <- El in *. replace (dq_size d =? 0) with false by (rewrite El, lenN_cons in Hl; lia).
+    destruct (filter_mut_loop_spec pred (N.to_nat (dq_size d)) d l 0 Hwf Hrep) as (d' & Hd & Hw' & Hr' & Hf'); [lia|].
+    rewrite Hd. cbn [bind]. exists d'. split; [reflexivity|]. split; [assumption|]. split; [|assumption].
+    rewrite firstnN_0, skipnN_0 in Hr'. exact Hr'.
+Qed.
+
+(** * filter into a new deque (the result never has to grow: it inherits the source's capacity) *)
+Lemma filter_loop_spec pred d l : dq_wf d -> repr d l ->
+  forall k i f lf a, i + N.of_nat k = dq_size d -> dq_wf f -> repr f lf -> owns f a -> dq_size f <= i -> dq_cap f = dq_cap d ->
+  exists f', filter_loop pred d k i f a = Ok (CC_OK, Some f', a) /\ dq_wf f' /\ repr f' (lf ++ filter pred (skipnN i l)) /\
+             frame f f'.
+Proof.
+  intros Hwf [Hl Hr]. pose proof (wf_cap d Hwf) as Hc. pose proof (wf_size d Hwf) as Hsz.
+  induction k as [|k IH]; intros i f lf a Hi Hwf' Hrf Hof Hsf Hcf; cbn [filter_loop].
+  - exists f. split; [reflexivity|]. split; [assumption|]. split; [|apply frame_refl]. rewrite skipnN_all, app_nil_r by lia. assumption.
+  - rewrite wf_phys by (try assumption; lia).
+    destruct (getN_lt l i) as [v Hv]; [lia|].
+    rewrite (rdv_ok _ _ v) by (rewrite Hr by lia; rewrite Hv; reflexivity). cbn [bind].
+    rewrite (skipnN_cons l i v Hv). cbn [filter]. rewrite wadd_small by (unfold W; lia).
+    destruct (pred v).
+    + destruct (add_last_refines f lf v a Hwf' Hrf Hof) as (st & f1 & a1 & Ha & Hout & Hng).
+      rewrite Ha. cbn [bind]. destruct Hng as (-> & -> & Hfr); [lia|]. cbn [stat_eqb stat_code N.eqb].
+      destruct Hout as [(_ & Hw1 & Hr1 & Ho1 & _)|(Hx & _)]; [|discriminate].
+      destruct (IH (i + 1) f1 (lf ++ [v]) a) as (f' & Hf' & Hw2 & Hr2 & Hfr2); try assumption; try lia.
+      * destruct Hr1 as [Hl1 _]. rewrite lenN_app in Hl1. change (lenN [v]) with 1 in Hl1. destruct Hrf as [Hlf _]. lia.
+      * destruct Hfr as [-> _]. assumption.
+      * exists f'. split; [assumption|]. split; [assumption|]. split; [|eapply frame_trans; eassumption].
+        rewrite <- app_assoc in Hr2. exact Hr2.
+    + apply IH; try assumption; lia.
+Qed.
+
+Lemma filter_spec d l pred a : dq_wf d -> repr d l -> owns d a ->
+  exists st r a', dq_filter d pred a = Ok (st, r, a') /\
+    match r with
+    | Some f => st = CC_OK /\ l <> [] /\ dq_wf f /\ repr f (filter pred l) /\ owns f a' /\ owns d a' /\
+                dq_mem f = dq_mem d /\ dq_cap f = dq_cap d
+    | None => (st = CC_ERR_OUT_OF_RANGE /\ l = [] /\ a' = a) \/ (st = CC_ERR_ALLOC /\ live a' = live a /\ owns d a')
+    end.
+Proof.
+  intros Hwf Hrep Ho. pose proof Hrep as [Hl Hr]. unfold dq_filter.
+  destruct (dq_size d =? 0) eqn:E0.
+  { do 3 eexists. split; [reflexivity|]. left. splits; auto. destruct l; [reflexivity|rewrite lenN_cons in Hl; lia]. }
+  destruct Ho as (Hok & Hpos & Hne & (n1 & H1) & (n2 & H2)).
+  destruct (new_conf_spec (dq_mem d) (dq_cap d) a Hok Hpos) as (st & r & a1 & Hn & Hspec).
+  rewrite Hn. cbn [bind]. destruct r as [f|].
+  - destruct Hspec as (-> & Hwf' & Hrf & Hof & Hmf & Hcf & Hsf & _ & _ & Hlive).
+    rewrite upper_pow_two_fix in Hcf by apply Hwf.
+    destruct (filter_loop_spec pred d l Hwf Hrep (N.to_nat (dq_size d)) 0 f [] a1) as (f' & Hf' & Hw2 & Hr2 & Hfr); try assumption; try lia.
+    rewrite Hf'. do 3 eexists. split; [reflexivity|]. cbv iota. rewrite skipnN_0 in Hr2. cbn [app] in Hr2.
+    destruct Hfr as (Hc' & Hh' & Hb' & Hm').
+    assert (Hof' : owns f' a1) by (eapply frame_owns; [|exact Hof]; repeat split; assumption).
+    splits; auto; try congruence.
+    + intros ->. cbn in Hl. lia.
+    + destruct Hof as (Hok1 & Hpos1 & _). unfold owns. rewrite Hlive. splits; auto; eexists; right; right; eassumption.
+  - destruct Hspec as (-> & Hl1 & Hok1 & Hpos1). do 3 eexists. split; [reflexivity|]. right. splits; auto.
+    unfold owns. rewrite Hl1. splits; eauto.
+Qed.
+
+(** * One step of the state machine *)
+Definition allocating (o : dq_op) : bool :=
+  match o with OAddFirst _ | OAddLast _ | OAddAt _ _ | OTrim => true | _ => false end.
+(** the only guard: an insertion must land in a branch of cc_deque_add_at that is right (D17) *)
+Definition op_ok (d : deque) (o : dq_op) : Prop :=
+  match o with OAddAt _ i => add_at_branch_ok d i = true | _ => True end.
+
+(** [d', a', out] is what the ideal list prescribes, or the operation was refused for lack of memory
+    and nothing at all changed *)
+Definition out_status (o : dq_out) : stat := match o with DOut st _ => st end.
+Definition step_post (d : deque) (a : alloc_st) (o : dq_op) (out : dq_out) (d' : deque) (a' : alloc_st) : Prop :=
+  dq_inv d' /\ owns d' a' /\ same_ids d d' /\ led_step d a d' a' /\
+  (((out, dq_abs d') = spec_step (dq_abs d) o /\ (allocating o = false -> a' = a /\ frame d d') /\
+    (out_status out <> CC_OK -> d' = d /\ a' = a)) \/
+   (out = DOut CC_ERR_ALLOC [] /\ allocating o = true /\ d' = d /\ live a' = live a)).
+
+Lemma frame_same d d' : frame d d' -> same_ids d d'.
+Proof. intros (_ & H1 & _ & H2). split; assumption. Qed.
+
+Lemma post_frame d a o out d' l' :
+  dq_wf d' -> repr d' l' -> frame d d' -> owns d a -> (out, l') = spec_step (dq_abs d) o -> out_status out = CC_OK ->
+  step_post d a o out d' a.
+Proof.
+  intros Hw Hr Hf Ho Hs Hst. destruct (repr_inv d' l' Hw Hr) as [Hi Ha].
+  split; [assumption|]. split; [eapply frame_owns; eassumption|]. split; [apply frame_same; assumption|].
+  split; [left; split; [reflexivity|apply Hf]|].
+  left. rewrite Ha. splits; auto. congruence.
+Qed.
+Lemma post_same d a o out :
+  dq_inv d -> owns d a -> (out, dq_abs d) = spec_step (dq_abs d) o -> step_post d a o out d a.
+Proof.
+  intros Hi Ho Hs. split; [assumption|]. split; [assumption|]. split; [split; reflexivity|].
+  split; [left; split; reflexivity|]. left. split; [assumption|]. split; [|auto].
+  intros _. split; [reflexivity|apply frame_refl].
+Qed.
+Lemma post_alloc d a o out d' a' l' st :
+  alloc_outcome d a l' st d' a' -> dq_inv d -> allocating o = true ->
+  out = DOut st [] -> (DOut CC_OK [], l') = spec_step (dq_abs d) o ->
+  step_post d a o out d' a'.
+Proof.
+  intros [(-> & Hw & Hr & Ho & Hid & Hled)|(-> & -> & Hl & Ho)] Hi Hal -> Hs.
+  - destruct (repr_inv d' l' Hw Hr) as [Hi' Ha]. split; [assumption|]. split; [assumption|]. split; [assumption|].
+    split; [assumption|].
+    left. rewrite Ha. split; [assumption|]. split; [rewrite Hal; discriminate|]. cbn. congruence.
+  - split; [assumption|]. split; [assumption|]. split; [split; reflexivity|]. split; [left; auto|]. right. auto.
+Qed.
+
+Theorem dq_step_refines d a o : dq_inv d -> owns d a -> op_ok d o ->
+  exists out d' a', dq_step d a o = Ok (out, d', a') /\ step_post d a o out d' a'.
+Proof.
+  intros Hinv Ho Hop. pose proof (inv_repr d Hinv) as Hrep. pose proof (inv_wf d Hinv) as Hwf.
+  set (l := dq_abs d) in *. pose proof Hrep as [Hl _].
+  destruct o as [x|x|x i|x i|x|i| | | |i| | | | |x|x|p|]; cbn [dq_step].
+  - (* add_first *)
+    destruct (add_first_refines d l x a Hwf Hrep Ho) as (st & d' & a' & He & Hout & _). rewrite He. cbn [bind].
+    do 3 eexists. split; [reflexivity|]. eapply post_alloc; eauto.
+  - (* add_last *)
+    destruct (add_last_refines d l x a Hwf Hrep Ho) as (st & d' & a' & He & Hout & _). rewrite He. cbn [bind].
+    do 3 eexists. split; [reflexivity|]. eapply post_alloc; eauto.
+  - (* add_at *)
+    destruct (add_at_partial d l x i a Hwf Hrep Ho Hop) as (st & d' & a' & He & Hout). rewrite He. cbn [bind].
+    do 3 eexists. split; [reflexivity|]. destruct (i <? lenN l) eqn:Ei.
+    + eapply post_alloc; eauto. cbn [spec_step]. fold l. rewrite Ei. reflexivity.
+    + destruct Hout as (-> & -> & ->). split; [assumption|]. split; [assumption|]. split; [split; reflexivity|].
+      split; [left; split; reflexivity|]. left.
+      cbn [spec_step]. fold l. rewrite Ei. split; [reflexivity|]. split; [discriminate|auto].
+  - (* replace_at *)
+    pose proof (replace_at_refines d l x i Hwf Hrep) as H. destruct (getN l i) as [old|] eqn:Eg.
+    + destruct H as (d' & He & Hw & Hr & Hf). rewrite He. cbn [bind]. do 3 eexists. split; [reflexivity|].
+      eapply post_frame; eauto; [cbn [spec_step olist]; fold l; rewrite nthN_spec, Eg; reflexivity].
+    + rewrite H. cbn [bind]. do 3 eexists. split; [reflexivity|]. apply post_same; auto.
+      cbn [spec_step olist]. fold l. rewrite nthN_spec, Eg. reflexivity.
+  - (* remove *)
+    pose proof (remove_refines d l x Hwf Hrep) as H. destruct (find_index l x 0) as [i|] eqn:Eg.
+    + destruct H as (d' & He & Hw & Hr & Hf). rewrite He. cbn [bind]. do 3 eexists. split; [reflexivity|].
+      eapply post_frame; eauto; [cbn [spec_step olist]; fold l; rewrite Eg; reflexivity].
+    + rewrite H. cbn [bind]. do 3 eexists. split; [reflexivity|]. apply post_same; auto.
+      cbn [spec_step olist]. fold l. rewrite Eg. reflexivity.
+  - (* remove_at *)
+    pose proof (remove_at_refines d l i Hwf Hrep) as H. destruct (getN l i) as [v|] eqn:Eg.
+    + destruct H as (d' & He & Hw & Hr & Hf). rewrite He. cbn [bind]. do 3 eexists. split; [reflexivity|].
+      eapply post_frame; eauto; [cbn [spec_step olist]; fold l; rewrite nthN_spec, Eg; reflexivity].
+    + rewrite H. cbn [bind]. do 3 eexists. split; [reflexivity|]. apply post_same; auto.
+      cbn [spec_step olist]. fold l. rewrite nthN_spec, Eg. reflexivity.
+  - (* remove_first *)
+    pose proof (remove_first_refines d l Hwf Hrep) as H. destruct l as [|x t] eqn:El.
+    + rewrite H. cbn [bind]. do 3 eexists. split; [reflexivity|]. apply post_same; auto.
+      cbn [spec_step olist]. fold l. rewrite El. reflexivity.
+    + destruct H as (d' & He & Hw & Hr & Hf). rewrite He. cbn [bind]. do 3 eexists. split; [reflexivity|].
+      eapply post_frame; eauto; [cbn [spec_step olist]; fold l; rewrite El; reflexivity].
+  - (* remove_last *)
+    pose proof (remove_last_refines d l Hwf Hrep) as H. destruct l as [|x t] eqn:El.
+    + rewrite H. cbn [bind]. do 3 eexists. split; [reflexivity|]. apply post_same; auto.
+      cbn [spec_step olist]. fold l. rewrite El. reflexivity.
+    + destruct H as (d' & He & Hw & Hr & Hf). rewrite He. cbn [bind]. do 3 eexists. split; [reflexivity|].
+      eapply post_frame; eauto; [cbn [spec_step olist]; fold l; rewrite El; reflexivity].
+  - (* remove_all *)
+    destruct (remove_all_refines d Hwf) as (Hw & Hr & Hf). do 3 eexists. split; [reflexivity|].
+    eapply post_frame; eauto.
+  - (* get_at *)
+    rewrite (get_at_refines d l i Hwf Hrep). cbn [bind].
+    destruct (getN l i) eqn:Eg; (do 3 eexists; split; [reflexivity|]; apply post_same; auto;
+      cbn [spec_step olist]; fold l; rewrite nthN_spec, Eg; reflexivity).
+  - (* get_first *)
+    rewrite (get_first_refines d l Hwf Hrep). cbn [bind].
+    destruct l as [|x t] eqn:El; (do 3 eexists; split; [reflexivity|]; apply post_same; auto;
+      cbn [spec_step olist]; fold l; rewrite El; reflexivity).
+  - (* get_last *)
+    rewrite (get_last_refines d l Hwf Hrep). cbn [bind].
+    destruct l as [|x t] eqn:El; (do 3 eexists; split; [reflexivity|]; apply post_same; auto;
+      cbn [spec_step olist]; fold l; rewrite El; reflexivity).
+  - (* trim *)
+    destruct (trim_refines d l a Hwf Hrep Ho) as (st & d' & a' & He & Hout). rewrite He. cbn [bind].
+    do 3 eexists. split; [reflexivity|]. eapply (post_alloc d a OTrim _ d' a' l st); eauto.
+    destruct Hout as [(-> & Hw & Hr & Ho' & Hid & _ & _ & Hled)|H]; [left; splits; auto|right; auto].
+  - (* reverse *)
+    destruct (reverse_refines d l Hwf Hrep) as (d' & He & Hw & Hr & Hf). rewrite He. cbn [bind].
+    do 3 eexists. split; [reflexivity|]. eapply post_frame; eauto.
+  - (* contains *)
+    rewrite (contains_refines d l x Hwf Hrep). cbn [bind]. do 3 eexists. split; [reflexivity|]. apply post_same; auto.
+  - (* index_of *)
+    rewrite (index_of_refines d l x Hwf Hrep). cbn [bind].
+    destruct (find_index l x 0) eqn:Eg; (do 3 eexists; split; [reflexivity|]; apply post_same; auto;
+      cbn [spec_step olist]; fold l; rewrite Eg; reflexivity).
+  - (* filter_mut *)
+    pose proof (filter_mut_refines d l p Hwf Hrep) as H. destruct l as [|x t] eqn:El.
+    + rewrite H. cbn [bind]. do 3 eexists. split; [reflexivity|]. apply post_same; auto.
+      cbn [spec_step]. fold l. rewrite El. reflexivity.
+    + destruct H as (d' & He & Hw & Hr & Hf). rewrite He. cbn [bind]. do 3 eexists. split; [reflexivity|].
+      eapply post_frame; eauto; [cbn [spec_step]; fold l; rewrite El; reflexivity].
+  - (* foreach *)
+    rewrite (foreach_refines d l Hwf Hrep). cbn [bind]. do 3 eexists. split; [reflexivity|]. apply post_same; auto.
+Qed.
+
+(** * Histories *)
+Fixpoint ops_ok (d : deque) (a : alloc_st) (ops : list dq_op) : Prop :=
+  match ops with
+  | [] => True
+  | o :: r => op_ok d o /\ match dq_step d a o with Ok (_, d1, a1) => ops_ok d1 a1 r | Fault _ => True end
+  end.
+Definition no_add_at (ops : list dq_op) : Prop := forall x i, ~ In (OAddAt x i) ops.
+Lemma no_add_at_ok ops : no_add_at ops -> forall d a, ops_ok d a ops.
+Proof.
+  induction ops as [|o r IH]; intros H d a; cbn [ops_ok]; [exact I|]. split.
+  - destruct o; try exact I. exfalso. eapply H. left. reflexivity.
+  - destruct (dq_step d a o) as [[[? d1] a1]|]; [|exact I]. apply IH. intros x i Hin. eapply H. right. eassumption.
+Qed.
+
+Theorem dq_run_refines ops : forall d a, dq_inv d -> owns d a -> ops_ok d a ops ->
+  exists outs d' a', dq_run d a ops = Ok (outs, d', a') /\ dq_inv d' /\ owns d' a' /\ same_ids d d' /\
+                     (outs, dq_abs d') = spec_run (dq_abs d) ops (map is_alloc_err outs).
+Proof.
+  induction ops as [|o r IH]; intros d a Hinv Ho Hok; cbn [dq_run].
+  - do 3 eexists. split; [reflexivity|]. splits; auto. split; reflexivity.
+  - destruct Hok as [Hop Hrest].
+    destruct (dq_step_refines d a o Hinv Ho Hop) as (out & d1 & a1 & Hs & Hi1 & Ho1 & Hid1 & Hled1 & Hpost).
+    rewrite Hs in *. cbn [bind].
+    destruct (IH d1 a1 Hi1 Ho1 Hrest) as (outs & d2 & a2 & Hr & Hi2 & Ho2 & Hid2 & Hspec).
+    rewrite Hr. cbn [bind]. do 3 eexists. split; [reflexivity|]. splits; auto.
+    + destruct Hid1, Hid2. split; congruence.
+    + cbn [map spec_run]. destruct Hpost as [[Hsp _]|(-> & _ & -> & _)].
+      * assert (Hne : is_alloc_err out = false).
+        { destruct (spec_step (dq_abs d) o) as [o' l'] eqn:E. inversion Hsp; subst.
+          destruct o; cbn in E; repeat match type of E with context [match ?x with _ => _ end] => destruct x end;
+            inversion E; reflexivity. }
+        rewrite Hne. rewrite <- Hsp. rewrite <- Hspec. reflexivity.
+      * cbn [is_alloc_err]. rewrite <- Hspec. reflexivity.
+Qed.
+
+(** from the constructor, for every configured capacity (0 and non-powers of two included) *)
+Theorem dq_new_run_refines mem capacity a ops st d a1 :
+  ledger_ok a -> 0 < next_id a ->
+  dq_new_conf mem capacity a = Ok (st, Some d, a1) -> ops_ok d a1 ops ->
+  dq_inv d /\ dq_abs d = [] /\
+  exists outs d' a', dq_run d a1 ops = Ok (outs, d', a') /\ dq_inv d' /\ owns d' a' /\
+                     (outs, dq_abs d') = spec_run [] ops (map is_alloc_err outs).
+Proof.
+  intros Hok Hpos Hn Hops. destruct (new_conf_spec mem capacity a Hok Hpos) as (st' & r & a' & Hn' & Hspec).
+  rewrite Hn in Hn'. inversion Hn'; subst. destruct Hspec as (_ & Hwf & Hr & Ho & _).
+  destruct (repr_inv d [] Hwf Hr) as [Hinv Habs]. split; [assumption|]. split; [assumption|].
+  destruct (dq_run_refines ops d a' Hinv Ho Hops) as (outs & d' & a2 & Hrun & Hi & Ho' & _ & Hsp).
+  rewrite Habs in Hsp. eauto 10.
+Qed.
+
+(** * add_at at full strength is refuted: capacity 8, [1;2;3;4] at the start of the buffer, insert 9 at 1 *)
+Definition witness_deque : deque :=
+  {| dq_size := 4; dq_cap := 8; dq_first := 0; dq_last := 4;
+     dq_slots := [Some 1; Some 2; Some 3; Some 4; None; None; None; None];
+     dq_hdr := 1; dq_buf := 2; dq_mem := Conf |}.
+Definition witness_alloc : alloc_st :=
+  {| plan := []; limit := 1099511627776; next_id := 3;
+     live := [ {| b_id := 2; b_tag := Conf; b_bytes := 64 |}; {| b_id := 1; b_tag := Conf; b_bytes := 64 |} ]; nreq := 2 |}.
+
+Lemma witness_inv : dq_inv witness_deque.
+Proof.
+  constructor.
+  - constructor; cbn; try lia; try reflexivity. exists 3. split; [lia|reflexivity].
+  - cbn [witness_deque dq_size dq_first dq_cap dq_slots]. intros i Hi.
+    assert (H : i = 0 \/ i = 1 \/ i = 2 \/ i = 3) by lia.
+    destruct H as [ -> | [ -> | [ -> | -> ] ] ]; vm_compute; eauto.
+Qed.
+Lemma witness_owns : owns witness_deque witness_alloc.
+Proof.
+  unfold owns, ledger_ok. cbn. splits; try lia.
+  - repeat constructor; cbn; intuition lia.
+  - intros b [Hb|[Hb|Hb]]; [subst b; cbn; lia|subst b; cbn; lia|destruct Hb].
+  - eexists; right; left; reflexivity.
+  - eexists; left; reflexivity.
+Qed.
+
+Lemma deque_add_at_refuted :
+  exists d a x i, dq_inv d /\ owns d a /\ i < dq_size d /\
+    exists d' a', dq_add_at d x i a = Ok (CC_OK, d', a') /\ dq_abs d' <> ins (dq_abs d) i x /\
+                  add_at_branch_ok d i = false.
+Proof.
+  exists witness_deque, witness_alloc, 9, 1. split; [apply witness_inv|]. split; [apply witness_owns|].
+  split; [reflexivity|]. do 2 eexists. split; [vm_compute; reflexivity|]. split; [vm_compute; discriminate|reflexivity].
+Qed.
+
+(** the back-half wrap branch with a single free slot is wrong as well *)
+Lemma deque_add_at_refuted_back :
+  exists d a x i, dq_inv d /\ owns d a /\ i < dq_size d /\
+    exists d' a', dq_add_at d x i a = Ok (CC_OK, d', a') /\ dq_abs d' <> ins (dq_abs d) i x.
+Proof.
+  set (d := {| dq_size := 3; dq_cap := 4; dq_first := 1; dq_last := 0;
+               dq_slots := [Some 70; Some 1; Some 2; Some 3]; dq_hdr := 1; dq_buf := 2; dq_mem := Conf |}).
+  exists d, witness_alloc, 9, 2. split.
+  { constructor.
+    - constructor; cbn; try lia; try reflexivity. exists 2. split; [lia|reflexivity].
+    - cbn [d dq_size dq_first dq_cap dq_slots]. intros i Hi.
+      assert (H : i = 0 \/ i = 1 \/ i = 2) by lia. destruct H as [ -> | [ -> | -> ] ]; vm_compute; eauto. }
+  split; [exact witness_owns|]. split; [reflexivity|].
+  do 2 eexists. split; [vm_compute; reflexivity|]. vm_compute. discriminate.
+Qed.
+
+(** * The statements exported for property C05 *)
+Lemma dq_step_inv d a o out d' a' : dq_inv d -> owns d a -> op_ok d o ->
+  dq_step d a o = Ok (out, d', a') -> dq_inv d' /\ owns d' a' /\ dq_hdr d' = dq_hdr d /\ dq_mem d' = dq_mem d.
+Proof.
+  intros Hi Ho Hop Hs. destruct (dq_step_refines d a o Hi Ho Hop) as (out1 & d1 & a1 & Hs1 & Hi1 & Ho1 & [Hh Hm] & _).
+  rewrite Hs in Hs1. inversion Hs1; subst. auto.
+Qed.
+
+Lemma dq_index d : dq_inv d ->
+  (forall i, dq_get_at d i = Ok (match getN (dq_abs d) i with
+                                 | Some v => (CC_OK, Some v) | None => (CC_ERR_OUT_OF_RANGE, None) end)) /\
+  (forall i, i < dq_size d ->
+     phys d i = (dq_first d + i) mod dq_cap d /\ getN (dq_slots d) (phys d i) = Some (getN (dq_abs d) i)) /\
+  lenN (dq_abs d) = dq_size d.
+Proof.
+  intros Hi. pose proof (inv_repr d Hi) as Hr. pose proof (inv_wf d Hi) as Hwf. split; [|split].
+  - intros i. apply get_at_refines; assumption.
+  - intros i Hlt. pose proof (wf_cap d Hwf). pose proof (wf_size d Hwf). pose proof (wf_first d Hwf).
+    rewrite wf_phys by (try assumption; lia). split; [symmetry; apply mod_idx; lia|]. apply Hr. assumption.
+  - apply abs_len.
+Qed.
+
+Lemma dq_step_refines_no_add_at d a o : dq_inv d -> owns d a -> (forall x i, o <> OAddAt x i) ->
+  exists out d' a', dq_step d a o = Ok (out, d', a') /\ step_post d a o out d' a'.
+Proof.
+  intros Hi Ho Hn. apply dq_step_refines; auto. destruct o; try exact I. exfalso. eapply Hn. reflexivity.
+Qed.
+
+Lemma deque_add_at_partial d a x i : dq_inv d -> owns d a -> add_at_branch_ok d i = true ->
+  exists out d' a', dq_step d a (OAddAt x i) = Ok (out, d', a') /\ step_post d a (OAddAt x i) out d' a'.
+Proof. intros Hi Ho Hb. apply dq_step_refines; auto. Qed.
+
+Lemma growth_trim_copy_preserve d a : dq_inv d -> owns d a ->
+  (forall st d' a', dq_expand d a = Ok (st, d', a') ->
+     dq_inv d' /\ dq_abs d' = dq_abs d /\ owns d' a' /\ (st = CC_OK -> dq_cap d' = 2 * dq_cap d) /\ (st <> CC_OK -> d' = d)) /\
+  (forall st d' a', dq_trim d a = Ok (st, d', a') ->
+     dq_inv d' /\ dq_abs d' = dq_abs d /\ owns d' a' /\ (st = CC_OK \/ st = CC_ERR_ALLOC /\ d' = d) /\
+     (st = CC_OK -> dq_cap d' = if dq_cap d =? dq_size d then dq_cap d else upper_pow_two (dq_size d))) /\
+  (forall cp st d2 a', dq_copy d cp a = Ok (st, Some d2, a') ->
+     dq_inv d2 /\ dq_abs d2 = copy_image cp (dq_abs d) /\ owns d2 a' /\ owns d a' /\ dq_cap d2 = dq_cap d /\ dq_mem d2 = dq_mem d).
+Proof.
+  intros Hi Ho. pose proof (inv_repr d Hi) as Hr. pose proof (inv_wf d Hi) as Hwf. split; [|split].
+  - intros st d' a' He. destruct (expand_spec d (dq_abs d) a Hwf Hr Ho) as (st1 & d1 & a1 & He1 & H).
+    rewrite He in He1. inversion He1; subst.
+    destruct H as [(-> & Hw & Hr' & Ho' & _ & Hc & _)|(Hne & -> & _ & Ho')].
+    + destruct (repr_inv _ _ Hw Hr') as [Hi' Ha]. splits; auto. congruence.
+    + splits; auto. congruence.
+  - intros st d' a' He. destruct (trim_refines d (dq_abs d) a Hwf Hr Ho) as (st1 & d1 & a1 & He1 & H).
+    rewrite He in He1. inversion He1; subst.
+    destruct H as [(-> & Hw & Hr' & Ho' & _ & _ & Hc & _)|(-> & -> & _ & Ho')].
+    + destruct (repr_inv _ _ Hw Hr') as [Hi' Ha]. splits; auto.
+    + splits; auto. discriminate.
+  - intros cp st d2 a' He. destruct (copy_spec d (dq_abs d) cp a Hwf Hr Ho) as (st1 & r & a1 & He1 & H).
+    rewrite He in He1. inversion He1; subst.
+    destruct H as (_ & Hw & Hr' & Ho2 & Ho' & Hm & Hc & _).
+    destruct (repr_inv _ _ Hw Hr') as [Hi' Ha]. splits; auto.
 Qed.
